@@ -4,7 +4,7 @@
     (U) the call-log correspondence of the traversal, (N) the interval correspondence of the leaves and
     (F) the tables of Gen/C09/Tables.v regenerated on every run. *)
 From Coq Require Import Reals Lra List Bool Arith String.
-From CB Require Import Base.Vec3 Model.C09_Transform Proofs.C09_Leaves Proofs.C09_Commute Proofs.C09_Equivariance.
+From CB Require Import Base.Vec3 Model.C09_Transform Proofs.C09_Leaves Proofs.C09_Commute Proofs.C09_Equivariance Proofs.C09_Traverse Proofs.C09_Main.
 From CB Require Import Gen.C09.Tables.
 Import ListNotations.
 Open Scope R_scope.
@@ -14,9 +14,7 @@ Open Scope R_scope.
 Definition C09_leaf_affine_stmt : Prop :=
   forall t p, valid t -> leaf_point t p = image_pos t p /\ leaf_row t p = image_pos t p.
 Theorem C09_leaf_affine : C09_leaf_affine_stmt.
-Proof. intros t p H. split; [exact (leaf_point_image t p H) | exact (leaf_row_image t p H)]. Qed.
-Example C09_leaf_affine_sat : valid (TRotate 1 (0, 0, 2) (1, 2, 3)) /\ valid (TMirror (1, 1, 0) (0, 0, 5)) /\ valid (TScale 2 (1, 0, 0)).
-Proof. unfold valid, norm2, dot, vx, vy, vz; simpl. repeat split; lra. Qed.
+Proof. exact M09_leaf_affine. Qed.
 
 (** ** 2. the maps named are the textbook ones: a rotation fixes its axis, keeps distances and turns
     every vector perpendicular to the axis by the angle; a reflection fixes its plane, sends the normal
@@ -36,54 +34,12 @@ Definition C09_reflection_spec_stmt : Prop :=
     (forall x, Hm (Hm x) = x) /\
     (forall x y, dot (vsub (Hm x) (Hm y)) (vsub (Hm x) (Hm y)) = dot (vsub x y) (vsub x y)).
 
-Lemma sub_image t x y : vsub (image_pos t x) (image_pos t y) = vsub (lin_of t x) (lin_of t y).
-Proof.
-  rewrite (image_pos_affine t x), (image_pos_affine t y).
-  destruct (lin_of t x) as [[? ?] ?], (lin_of t y) as [[? ?] ?], (image_pos t vzero) as [[? ?] ?]. vec_ring.
-Qed.
-Lemma lin_sub t x y : valid t -> vsub (lin_of t x) (lin_of t y) = lin_of t (vsub x y).
-Proof.
-  intro H. pose proof (image_similarity t H) as S.
-  replace (vsub x y) with (vadd x (vscale (-1) y)) by (destruct x as [[? ?] ?], y as [[? ?] ?]; vec_ring).
-  rewrite (s_add _ _ _ S), (s_scale _ _ _ S).
-  destruct (lin_of t x) as [[? ?] ?], (lin_of t y) as [[? ?] ?]. vec_ring.
-Qed.
 
 Theorem C09_rotation_spec : C09_rotation_spec_stmt.
-Proof.
-  intros th a o H Rm Rl. pose proof (dot_unitv_self a H) as Hu. pose proof (cos_sin_unit th) as Hcs.
-  assert (Hv : valid (TRotate th a o)) by exact H.
-  split; [|split].
-  - intro m. unfold Rm. simpl. unfold rotate_about.
-    replace (vsub (vadd o (vscale m a)) o) with (vscale (m * norm a) (unitv a)).
-    2:{ unfold unitv. pose proof (norm_pos_of_norm2 a H) as Hn.
-        destruct a as [[a1 a2] a3], o as [[o1 o2] o3]. apply vec_eq; vec_simpl; field; lra. }
-    rewrite (rod_scale (unitv a) (cos th) (sin th) Hu), (rod_axis_fixed (unitv a) (cos th) (sin th) Hu Hcs).
-    unfold unitv. pose proof (norm_pos_of_norm2 a H) as Hn.
-    destruct a as [[a1 a2] a3], o as [[o1 o2] o3]. apply vec_eq; vec_simpl; field; lra.
-  - intros x y. unfold Rm. rewrite sub_image, (lin_sub _ _ _ Hv).
-    rewrite (s_dot _ _ _ (image_similarity _ Hv)). simpl. ring.
-  - intros v Hp. unfold Rl. rewrite lin_of_rotate. split.
-    + apply rod_angle_cos; assumption.
-    + apply rod_angle_sin; assumption.
-Qed.
+Proof. exact M09_rotation_spec. Qed.
 
 Theorem C09_reflection_spec : C09_reflection_spec_stmt.
-Proof.
-  intros n o H Hm. assert (Hv : valid (TMirror n o)) by exact H.
-  unfold Hm. simpl. split; [|split; [|split]].
-  - intros x Hx. rewrite reflect_affine by exact H. rewrite (refl_fixes_plane n H _ Hx).
-    destruct x as [[? ?] ?], o as [[? ?] ?]. vec_ring.
-  - rewrite reflect_affine by exact H.
-    replace (vsub (vadd o n) o) with n by (destruct n as [[? ?] ?], o as [[? ?] ?]; vec_ring).
-    rewrite (refl_normal n H). destruct n as [[? ?] ?], o as [[? ?] ?]. vec_ring.
-  - intro x. rewrite (reflect_affine n o (reflect n o x)) by exact H. rewrite (reflect_affine n o x) by exact H.
-    replace (vsub (vadd (reflect n vzero (vsub x o)) o) o) with (reflect n vzero (vsub x o))
-      by (destruct (reflect n vzero (vsub x o)) as [[? ?] ?], o as [[? ?] ?]; vec_ring).
-    rewrite (refl_involution n H). destruct x as [[? ?] ?], o as [[? ?] ?]. vec_ring.
-  - intros x y. change (reflect n o x) with (image_pos (TMirror n o) x). change (reflect n o y) with (image_pos (TMirror n o) y).
-    rewrite sub_image, (lin_sub _ _ _ Hv). rewrite (s_dot _ _ _ (image_similarity _ Hv)). simpl. ring.
-Qed.
+Proof. exact M09_reflection_spec. Qed.
 
 (** ** 3. every transformation is a similarity x -> k Q x + b; direction quantities (arc axes) take the
     linear part only - they are rotated / reflected (with the sense flip of an improper map) but never
@@ -92,13 +48,13 @@ Definition C09_similarity_stmt : Prop :=
   forall t, valid t ->
     simil (lin_of t) (ratio_of t) (sigma_of t) /\ forall p, image_pos t p = vadd (lin_of t p) (image_pos t vzero).
 Theorem C09_similarity : C09_similarity_stmt.
-Proof. intros t H. split; [exact (image_similarity t H) | intro p; exact (image_pos_affine t p)]. Qed.
+Proof. exact M09_similarity. Qed.
 
 Definition C09_direction_linear_stmt : Prop :=
   forall t a, valid t ->
     image_axis t a = vscale (sigma_of t / ratio_of t) (lin_of t a) /\ image_axis t a = image_axis (zero_origin t) a.
 Theorem C09_direction_linear : C09_direction_linear_stmt.
-Proof. intros t a H. split; [exact (image_axis_linear t a H) | exact (image_axis_origin_free t a)]. Qed.
+Proof. exact M09_direction_linear. Qed.
 
 (** ** 4. commutation at heap level: when a transformation reaches an alias-free entity through `parts`,
     every position leaf ends as its affine image, every Angle axis as the image of a direction, and
@@ -110,10 +66,7 @@ Definition C09_commute_stmt : Prop :=
     (forall r i, In (r, i) (leaves n) -> h' i = image_cell t r (h i)) /\
     (forall j, ~ In j (map snd (leaves n)) -> h' j = h j).
 Theorem C09_commute : C09_commute_stmt.
-Proof. exact commute_tree. Qed.
-Example C09_commute_sat :
-  alias_free (NOper (NGroup [NPoint 0; NPoint 1; NAngle 2]) (NGroup [NPoint 3; NGroup [NGroup [NArray 4]]]) [NAngle 5]) = true.
-Proof. reflexivity. Qed.
+Proof. exact M09_commute. Qed.
 
 (** without alias-freeness the statement is false: a leaf reachable twice is moved twice (the shared face
     of the sphere shapes before fix C09-5) *)
@@ -122,16 +75,22 @@ Definition C09_commute_needs_alias_free_stmt : Prop :=
        forall r i, In (r, i) ls ->
          run_visits t (flat_map (leaf_visits (kind_of t)) ls) h i = image_cell t r (h i)).
 Theorem C09_commute_needs_alias_free : C09_commute_needs_alias_free_stmt.
-Proof.
-  intro H.
-  specialize (H (TTranslate (1, 0, 0)) [(RPos, 0%nat); (RPos, 0%nat)] (fun _ => CPoint (0, 0, 0)) I).
-  assert (Hok : forall r i, In (r, i) [(RPos, 0%nat); (RPos, 0%nat)] -> role_ok r ((fun _ : nat => CPoint (0, 0, 0)) i)).
-  { intros r i [E | [E | []]]; inversion E; exact I. }
-  specialize (H Hok RPos 0%nat (or_introl eq_refl)).
-  change (kind_of (TTranslate (1, 0, 0))) with KTranslate in H.
-  rewrite (alias_translated_twice (1, 0, 0) (0, 0, 0)) in H by reflexivity.
-  simpl in H. inversion H as [[E1 E2 E3]]. lra.
-Qed.
+Proof. exact M09_commute_needs_alias_free. Qed.
+
+(** ** 4b. the traversals that the call-log correspondence ties to the code (entity.method(...) and
+    entity.transform([...])) make exactly the leaf calls of [visits], in the same order; what they add is the
+    unobservable bookkeeping of Operation.invert.  A transformation list applied to a bare Angle is the exception. *)
+Definition C09_traversal_stmt : Prop :=
+  (forall k n, filter observable (method_visits k n) = visits k n) /\
+  (forall k n, k <> KMirror -> method_visits k n = visits k n) /\
+  (forall k n, not_angle n -> filter observable (list_visits k n) = visits k n).
+Theorem C09_traversal : C09_traversal_stmt.
+Proof. exact M09_traversal. Qed.
+
+Definition C09_list_on_angle_stmt : Prop :=
+  forall k i, filter observable (list_visits k (NAngle i)) = visits k (NAngle i).
+Theorem C09_list_on_angle_refuted : ~ C09_list_on_angle_stmt.
+Proof. exact M09_list_on_angle_refuted. Qed.
 
 (** ** 5. any number of transformations (in particular lists of up to three) compose *)
 Definition C09_compose_stmt : Prop :=
@@ -140,7 +99,7 @@ Definition C09_compose_stmt : Prop :=
     (forall r i, In (r, i) ls -> run_tfs ts ls h i = image_cells ts r (h i)) /\
     (forall j, ~ In j (map snd ls) -> run_tfs ts ls h j = h j).
 Theorem C09_compose : C09_compose_stmt.
-Proof. exact commute_compose. Qed.
+Proof. exact M09_compose. Qed.
 
 (** ** 6. output geometry: what is computed from transformed leaves is the transformed output.
     Full statement: straight and polyline/spline lengths scale by |ratio|, the third point of `origin` and
@@ -163,17 +122,7 @@ Definition C09_output_partial_stmt : Prop :=
     (forall p1 p2 c, arc_from_origin (A p1) (A p2) (A c) = A (arc_from_origin p1 p2 c)) /\
     (forall p1 p2 t2 a, arc_from_theta (A p1) (A p2) t2 (D a) = A (arc_from_theta p1 p2 t2 a)).
 Theorem C09_output_partial : C09_output_partial_stmt.
-Proof.
-  intros t H A D k. pose proof (image_similarity t H) as S.
-  assert (EA : forall p, A p = vadd (lin_of t p) (image_pos t vzero)) by (intro p; apply image_pos_affine).
-  assert (ED : forall a, D a = vscale (sigma_of t / ratio_of t) (lin_of t a)) by (intro a; apply image_axis_linear; exact H).
-  split; [|split; [|split]].
-  - intros x y. rewrite !EA. exact (dist_scaled _ _ _ _ S x y).
-  - intro l. rewrite (map_ext A (fun p => vadd (lin_of t p) (image_pos t vzero)) EA).
-    exact (polyline_length_scaled _ _ _ _ S l).
-  - intros p1 p2 c. rewrite !EA. exact (arc_from_origin_equivariant _ _ _ _ S p1 p2 c).
-  - intros p1 p2 t2 a. rewrite !EA, ED. exact (arc_from_theta_equivariant _ _ _ _ S p1 p2 t2 a).
-Qed.
+Proof. exact M09_output_partial. Qed.
 
 (** reversal of a side edge by Operation.invert keeps the arc (axis perpendicular to the chord) and maps
     a reversed point list to the reversed image *)
@@ -183,7 +132,7 @@ Definition C09_reverse_stmt : Prop :=
      arc_from_theta p2 p1 t2 (vopp a) = arc_from_theta p1 p2 t2 a) /\
   (forall t l, rev (map (image_pos t) l) = map (image_pos t) (rev l)).
 Theorem C09_reverse : C09_reverse_stmt.
-Proof. split; [exact arc_from_theta_reversed | exact rev_map_image]. Qed.
+Proof. exact M09_reverse. Qed.
 
 (** ** 7. copy(): an entity whose leaves are disjoint from the original's can be transformed without
     touching the original *)
@@ -192,12 +141,12 @@ Definition C09_copy_independent_stmt : Prop :=
     disjointb (map snd (leaves orig)) (map snd (leaves copy)) = true ->
     forall i, In i (map snd (leaves orig)) -> run_visits t (visits k copy) h i = h i.
 Theorem C09_copy_independent : C09_copy_independent_stmt.
-Proof. exact copy_independent. Qed.
+Proof. exact M09_copy_independent. Qed.
 
 (** ** 8. finite facts about the working tree (tables regenerated in this run) *)
 Ltac finite_forall tab chk :=
   let H := fresh "H" in
-  assert (H : forallb chk tab = true) by (vm_compute; reflexivity);
+  assert (H : forallb chk tab = true) by (vm_cast_no_check (eq_refl true));
   rewrite forallb_forall in H.
 
 (** every entity class of the catalogue builds alias-free objects (so C09_commute applies to it) ... *)
@@ -243,7 +192,7 @@ Proof.
 Qed.
 
 Definition C09_tables_nonempty_stmt : Prop :=
-  (60 <= length tab_class_graphs)%nat /\ (30 <= length tab_helper_writes)%nat /\ (20 <= length tab_overrides)%nat.
+  (60 <= List.length tab_class_graphs)%nat /\ (30 <= List.length tab_helper_writes)%nat /\ (20 <= List.length tab_overrides)%nat.
 Theorem C09_tables_nonempty : C09_tables_nonempty_stmt.
 Proof. vm_compute. repeat split; repeat constructor. Qed.
 
@@ -254,6 +203,8 @@ Print Assumptions C09_similarity.
 Print Assumptions C09_direction_linear.
 Print Assumptions C09_commute.
 Print Assumptions C09_commute_needs_alias_free.
+Print Assumptions C09_traversal.
+Print Assumptions C09_list_on_angle_refuted.
 Print Assumptions C09_compose.
 Print Assumptions C09_output_partial.
 Print Assumptions C09_reverse.
